@@ -15,7 +15,9 @@ objective is strictly monotone; a root with non-negative forward hazard exists i
 knots non-increasing iff that sign holds at every pillar), C09h.lean (the FULL annuity as coded is non-increasing, and the clean PV
 of the coded legs strictly increasing, in a flat hazard while h x period + discounting from the first coupon <= 1 per period),
 C09i.lean (first pillar of the bootstrap: the solver's objective is that flat-hazard clean PV, strictly decreasing in the knot => the
-first knot is unique).
+first knot is unique), C09j.lean (GENERATED LOOPS: Gen/CdsLoopR.lean is cut from the `for` statements of `_risky_pv01_numba`,
+`_prot_leg_pv_numba`, `_build_curve`, `f` and the CDS glue methods on every run; the hand model's loops ARE those loops — range, indices,
+initial state, step, tail, whole function — plus time-grid / index-range / telescoping / monotone-accumulator invariants on the generated steps).
 Model: FinVerif/Model/C09.lean + C09Boot.lean (+C09F Float glue), run as `c09driver` against `_risky_pv01_numba` /
 `_prot_leg_pv_numba` called directly with arrays (ops RPV, PROT), against the CDS object's methods for every premium-leg
 convention (op VAL; the accrued fraction is the contract's own day-count fraction computed by the harness) and against the
@@ -34,7 +36,8 @@ from props import c09_fast as FA  # noqa: E402
 from floatcmp import f2b, b2f, close  # noqa: E402
 
 PROPS = ['FinVerif.Props.C09', 'FinVerif.Props.C09b', 'FinVerif.Props.C09c', 'FinVerif.Props.C09d', 'FinVerif.Props.C09e',
-         'FinVerif.Props.C09f', 'FinVerif.Props.C09g', 'FinVerif.Props.C09h', 'FinVerif.Props.C09i']
+         'FinVerif.Props.C09f', 'FinVerif.Props.C09g', 'FinVerif.Props.C09h', 'FinVerif.Props.C09i', 'FinVerif.Props.C09j']
+GEN = ['CdsLoopR']      # tools/py2lean/registry/cdsloops.py: loop headers / indices / init / bodies / tails + CDS glue, cut from the source every run
 DRIVERS = ['FinVerif.Driver.C09']
 MEASURE = bool(os.environ.get('C09_MEASURE'))
 # witnesses of findings of the main component (C09/rolled-last-coupon-reads-beyond-own-knot, C09/inverted-quotes-negative-forward-hazard)
@@ -65,7 +68,7 @@ def arr(a):
 
 
 def run(ctx):
-    drivers_ok = C.lean_stage(ctx, [], PROPS, DRIVERS)
+    drivers_ok = C.lean_stage(ctx, GEN, PROPS, DRIVERS, extra_files=['FinVerif/Lemmas/C09Loop.lean'])
     C.import_financepy()
     import numpy as np
     from financepy.utils.date import Date
@@ -132,7 +135,13 @@ def run(ctx):
         vd = Date(*w['value_dt'])
         libor = DiscountCurveFlat(vd, w['flat_rate'])
         cdss = [CDS(vd, t, s) for t, s in zip(w['tenors'], w['spreads'])]
-        curve_oracles(dict(w, corpus=True), vd, w['tenors'], w['spreads'], cdss, CDSCurve(vd, cdss, libor, w['recovery']), libor,
+        try:
+            corpus_curve = CDSCurve(vd, cdss, libor, w['recovery'])
+        except Exception as e:  # noqa: BLE001 — both corpus curves build on the unchanged tree; a raise is a concrete failing input
+            ctx.violation('corpus curve (built by the unchanged code) can no longer be bootstrapped',
+                          dict(w, corpus=True, error=f'{type(e).__name__}: {e}'), clause='corpus-bootstrap-completes')
+            continue
+        curve_oracles(dict(w, corpus=True), vd, w['tenors'], w['spreads'], cdss, corpus_curve, libor,
                       w['recovery'], w['flat_rate'])
     ctx.count('corpus_main', len(CORPUS_MAIN), len(CORPUS_MAIN), sample=CORPUS_MAIN[0])
 
